@@ -739,7 +739,7 @@ func runDpkg(r *hx.Run, rnd *hx.Rand, cfg hx.Config) {
 		r.Op("mime "+hx.Hex([]byte(s)), mimeCalls([]byte(s)), true)
 	}
 
-	nDB := cfg.N(300, 4000)
+	nDB := cfg.N(300, 8000)
 	for i := 0; i < nDB && !r.Stop(); i++ {
 		n := r0(rnd, i)
 		o := dbOpts{allowDup: rnd.Chance(1, 10), allowSrcDisagree: rnd.Chance(1, 10)}
